@@ -103,6 +103,11 @@ fn strong_case(cfg: &Config, idx: u64, r: &mut Rng, st: &mut Stats) {
             }
         }
     }
+    // debugging aid: one given pair instead of the generated one
+    let (l, rt) = match (std::env::var("AVM_C19_LEFT"), std::env::var("AVM_C19_RIGHT")) {
+        (Ok(a), Ok(b)) => (a, b),
+        _ => (l, rt),
+    };
     let (Ok(lp), Ok(rp)) = (parse_program(&l), parse_program(&rt)) else { return };
     let mu = r.chance(1, 2);
     let mut fams = Vec::new();
